@@ -407,6 +407,8 @@ class Mon(object):
             return
         rv = mpval(S, S.val(res))
         if fn == "tan":
+            if abs(t) > 63.9:
+                st.bump("tan_judged_within_0.1_of_the_domain_edge_64")
             err = abs(rv - t)
             bound = TWO ** -14 * (1 + t * t)
             self.note_err(fn, S, err, bound, line)
